@@ -219,4 +219,21 @@ PROPS = {
                        'model has no violated condition and otherwise a member of the violated set; the store after ApplyGenericUpdate (slots, header identities, committee '
                        'identities, participation maxima) must equal the model\'s exactly; all property clauses are evaluated on the implementation\'s own before/after stores',
     },
+    'C17': {
+        'lean_targets': ['Shisui.Props.C17'],
+        'min_obligations': 6,
+        'runs': [{'name': 'crash', 'harness': ['crash'], 'driver': ['crash'], 'timeout': 1800}],
+        'rule': 'put histories of 12..17 puts (items 60..120 KB or tiny, one in six an overwrite; capacity 1 MB so that a prune and the >95% state occur) on '
+                'the real pebble store over errorfs(StrictMem): for every cut point k (every k-th mutating file-system call: create, write, sync, rename, '
+                'remove, link, mkdir; up to 45 sampled per history in the quick tier, 400 in thorough) the k-th call and all later ones block forever; the '
+                'file system is cloned as it is (unsynced data kept) and after ResetToSyncedState (unsynced data dropped); a fresh pebble + NewStorage is '
+                'opened on each clone; the observation (reopen ok, items with value digests, counter record, bytes present, radius) must equal '
+                'StX.reopen of the image after SOME prefix of the committed batches of the model; non-trivial = the explaining prefix is non-empty; '
+                'distinct = distinct lines',
+        'trusted': ['pebble: atomic batches, loss of at most a suffix of unsynced batches (checked by the prefix relation on every run, not proved)', 'vfs.StrictMem gives the two extremes per cut (all unsynced kept / all dropped), not per-file mixtures'],
+        'assumptions': ['sequential histories (one writer)', '32-byte ids'],
+        'explanation': 'theorems: every image after every batch is consistent (crash_images_ok), reopen on a consistent image gives a store satisfying the full invariant, prunes when '
+                       'over capacity, radius rule (ideal); correspondence: prefix relation against the real reopen; monitors reopen_succeeds, items_genuine, counter_ge_held, '
+                       'open_prunes_overcap, open_radius_is_farthest (known finding inherited from C06), image_is_a_batch_prefix',
+    },
 }
